@@ -11,7 +11,8 @@ Open Scope Z_scope.
    block's own handle.
      Write m chk k   res := tx.Create(marker m); if chk && res.Error != nil { return res.Error }
      Read chk k      res := tx.Model(..).Count(&n); same
-     Child b chk k   err := tx.Transaction(b); if chk && err != nil { return err }
+     Child b chk rcv k   err := tx.Transaction(b); if chk && err != nil { return err }
+                     (rcv: the call is wrapped in a recover(), a panic of b is swallowed)
      Save n k        if err := tx.SavePoint(n).Error; err != nil { return err }
      RbTo n k        if err := tx.RollbackTo(n).Error; err != nil { return err }          *)
 Inductive outcome := RetNil | RetErr (e : Z) | Panic (p : Z).
@@ -19,7 +20,7 @@ Inductive prog :=
 | Done (o : outcome)
 | Write (m : Z) (chk : bool) (k : prog)
 | Read (chk : bool) (k : prog)
-| Child (b : prog) (chk : bool) (k : prog)
+| Child (b : prog) (chk : bool) (rcv : bool) (k : prog)
 | Save (n : Z) (k : prog)
 | RbTo (n : Z) (k : prog).
 
@@ -32,7 +33,7 @@ Fixpoint scoped (avail : list Z) (p : prog) : bool :=
   match p with
   | Done _ => true
   | Write _ _ k | Read _ k => scoped avail k
-  | Child b _ k => scoped [] b && scoped avail k
+  | Child b _ _ k => scoped [] b && scoped avail k
   | Save n k => scoped (n :: avail) k
   | RbTo n k => memz n avail && scoped (cutz n avail) k
   end.
@@ -249,7 +250,7 @@ Fixpoint run_body (p : prog) (h : option err) (s : st) : res * list obs * option
     | Some e', true => (RErr e', [o], h, s1)
     | _, _ => let '(r, l, h2, s2) := run_body k h s1 in (r, o :: l, h2, s2)
     end
-  | Child b chk k =>
+  | Child b chk rcv k =>
     let '(r, o, h1, s1) := nested (run_body b) h s in
     match r with
     | ROk => let '(r', l, h2, s2) := run_body k h1 s1 in (r', o :: l, h2, s2)
@@ -258,7 +259,9 @@ Fixpoint run_body (p : prog) (h : option err) (s : st) : res * list obs * option
       else
         let s1' := match o with OC false _ _ _ => flag_spign s1 | _ => s1 end in
         let '(r', l, h2, s2) := run_body k h1 s1' in (r', o :: l, h2, s2)
-    | RPan p => (RPan p, [o], h1, s1)
+    | RPan p =>
+      if rcv then let '(r', l, h2, s2) := run_body k h1 s1 in (r', o :: l, h2, s2)
+      else (RPan p, [o], h1, s1)
     end
   | Save n k =>
     let '(h1, s1) := h_sp true (NUser n) h s in
